@@ -11,6 +11,8 @@ ORACLE_OF = {
     'C09': ['world-threaded-through-hooks-and-steps', 'world-created-at-most-once-and-only-when-needed', 'no-panic-escapes-the-attempt', 'reference-applicable'],
     'C01': ['failed-events-say-retried-iff-the-attempt-is-retried', 'reference-applicable'],
     'C05': ['attempt-reported-failed-and-retried-correctly', 'no-panic-escapes-the-attempt', 'retry-delay-counted-from-the-end-of-the-attempt', 'reference-applicable'],
+    # fail-fast acts on the `failed` flag an attempt reports when it ends
+    'C08': ['attempt-reported-failed-and-retried-correctly', 'no-panic-escapes-the-attempt', 'reference-applicable'],
     'C10': ['no-panic-escapes-the-attempt', 'failed-events-carry-the-payload', 'canonical-event-sequence', 'attempt-reported-failed-and-retried-correctly'],
 }
 
@@ -26,6 +28,7 @@ def shapes(tier):
     return out
 
 
+@common.part
 def run(chk, prop):
     ix = events.CukeIdx(chk.prog)
     names = ORACLE_OF[prop]
@@ -92,6 +95,7 @@ def run(chk, prop):
     return obs
 
 
+@common.part
 def run_pair(chk, prop):
     """Two attempts polled in turns on one thread (what execute() does with its in-flight set): whatever run_scenario does
     to the process panic hook must leave it as it found it, and a user panic must never meet the default hook."""
@@ -205,6 +209,11 @@ def confirm(chk, o, prop, name):
     if shape.retries is not None:
         lines += ['| %s@retry(%d)%s' % (ind, shape.retries[0] + shape.retries[1], '.after(300ms)' if getattr(shape, 'delay', False) else '')]
     lines += ['| %sScenario: s' % ind] + ['| %s  Given s%d' % (ind, i) for i in range(shape.steps)]
+    if name == 'attempt-reported-failed-and-retried-correctly':
+        # the `failed` flag of the finished-notification is what fail-fast acts on: a second scenario queued behind this one
+        # (limit 1, fail-fast on) must not start after a final failure
+        lines[1] = 'builder max_concurrent=1 fail_fast=1'
+        lines += ['| %sScenario: zz' % ind, '| %s  Given zstep' % ind]
     unsupported = []
     # callbacks whose panic payload has to be neither String nor &str for the deviation to show
     custom = set()
@@ -253,6 +262,13 @@ def confirm(chk, o, prop, name):
         if not sc or not sc[-1].endswith('finished r=%s' % ('-' if shape.retries is None else '')) and 'finished' not in sc[-1]:
             problems.append('no Scenario::Finished as last event of the attempt')
         logs = [ln for ln in out.splitlines() if ln.startswith('LOG ')]
+        if 'hook is set, but' in (o.detail or ''):
+            # hooks that are set are reached: natively the driver's hooks log when they are entered
+            for hk_, has in (('before', shape.before), ('after', shape.after)):
+                n_att = len([e for e in sc if re.search(r':started r=', e) and ':step[' not in e and ':bg[' not in e and ':hook:' not in e])
+                n_hk = len([ln for ln in logs if 'enter %s_hook' % hk_ in ln])
+                if has and n_att and n_hk < n_att:
+                    problems.append('a %s hook is set: it was entered %d time(s) in %d attempt(s) of the scenario' % (hk_, n_hk, n_att))
         if name.startswith('world-'):
             aft = [ln for ln in logs if 'enter after_hook' in ln]
             steps_w = set(re.findall(r'enter (?:step|before_hook) \[[^\]]*\] call=\d+ world=(w\d+)', '\n'.join(logs)))
@@ -261,7 +277,10 @@ def confirm(chk, o, prop, name):
             # the reason handed to the after hook
             from checks import events as _ev
             ix_ = _ev.CukeIdx(chk.prog)
-            refd = attempt.reference(shape, tl, ix_)
+            try:
+                refd = attempt.reference(shape, tl, ix_)
+            except (KeyError, IndexError):
+                refd = {'calls': []}          # the path lacks choices the reference needs (judged above)
             want_reason = [c[3] for c in refd['calls'] if c[0] == 'after']
             got_reason = re.findall(r'LOG after_hook_reason \[s\] (\w+)', out)
             rtag2 = None if shape.retries is None else shape.retries[0]
@@ -319,6 +338,11 @@ def confirm(chk, o, prop, name):
             want = budget + 1 if failed0 else 1
             if len(started) != want:
                 problems.append('%d attempt(s) ran; a scenario whose attempts %s and whose budget is %d has %d' % (len(started), 'fail' if failed0 else 'do not fail', budget, want))
+            zz = [e for e in evs if ':scenario[zz]:started' in e]
+            if failed0 and zz:
+                problems.append('the last attempt of `s` has a Failed event, yet with fail-fast on and a limit of 1 the scenario queued behind it was still started (the attempt was not reported as failed)')
+            if not failed0 and not zz and len(started) == want:
+                problems.append('no attempt of `s` failed, yet with fail-fast on the scenario queued behind it never started (the attempt was reported as failed)')
     if problems:
         chk.replay_files.append(path)
         o.replay = path
